@@ -2,8 +2,11 @@
 """Print the prompt given to a fresh 'seeding' sub-agent for one property (it receives only the property text)."""
 import json, sys
 pid = sys.argv[1]
+suffix = sys.argv[2] if len(sys.argv) > 2 else ''
+avoid = sys.argv[3] if len(sys.argv) > 3 else ''
 p = {json.loads(l)['id']: json.loads(l) for l in open('/verif/properties.jsonl')}[pid]
-low = pid.lower()
+low = pid.lower() + suffix
+avoid_line = ('\nAn earlier exercise already used this change, so pick a DIFFERENT location and mechanism: ' + avoid + '\n') if avoid else ''
 print(f"""You are testing how well a semantic property of the Go project onflow/cadence (a smart-contract language: parser, checker, tree-walking interpreter, bytecode compiler+VM in bbq/, runtime, codecs) is protected. You get only the property text below. Work ONLY in your own scratch git worktree; never touch /repo itself or anything under /verif (do not read /verif).
 
 PROPERTY {pid}: {p['title']}
@@ -12,7 +15,7 @@ Quantified over: {p['quantifier']['text']}
 
 Setup: `git -C /repo worktree add /tmp/seed-{low} HEAD` then work in /tmp/seed-{low}. Go env for every shell call: `export GOFLAGS=-mod=mod GOPROXY=off` (do NOT set GOTOOLCHAIN or GOSUMDB). The machine is heavily loaded: compile/test only the packages you need, e.g. `go test -vet=off -count=1 ./interpreter/ -run <regex>`.
 
-Task: produce ONE realistic change to the source of onflow/cadence (non-test Go files) that BREAKS this property while the code still compiles and the existing tests of the packages you touched (and their obvious dependents, e.g. ./interpreter/... ./runtime/... ./bbq/... ./sema/... as relevant) still pass. It should look like a plausible regression or refactoring slip (an off-by-one in a bound, a dropped or weakened check, a wrong branch, a missing invalidation/copy, a cache or fast path that is wrong in a corner), NOT something ordinary use would expose at once: it must need something specific to manifest — an unusual input or boundary value, a particular multi-step sequence of operations, a specific type/width, two sites that each look fine alone, only one of the two engines, only stored-and-reloaded values, etc. Keep the patch small (typically 1-15 changed lines).
+Task: produce ONE realistic change to the source of onflow/cadence (non-test Go files) that BREAKS this property while the code still compiles and the existing tests of the packages you touched (and their obvious dependents, e.g. ./interpreter/... ./runtime/... ./bbq/... ./sema/... as relevant) still pass. It should look like a plausible regression or refactoring slip (an off-by-one in a bound, a dropped or weakened check, a wrong branch, a missing invalidation/copy, a cache or fast path that is wrong in a corner), NOT something ordinary use would expose at once: it must need something specific to manifest — an unusual input or boundary value, a particular multi-step sequence of operations, a specific type/width, two sites that each look fine alone, only one of the two engines, only stored-and-reloaded values, etc. Keep the patch small (typically 1-15 changed lines).{avoid_line}
 
 Deliverables, written to /tmp/seed-out/{low}/ (create it):
  1. patch.diff  — `git -C /tmp/seed-{low} diff` of your change (source files only, no test files).
